@@ -6,10 +6,11 @@ import tempfile
 import traceback
 
 import cppcheck
+import findings
 import scen
 import trace
 import workers
-from build import Definition, named, fl, interp
+from build import Definition, named, fl, interp, well_conditioned
 from common import finish
 
 LEVEL = "translation_validation"
@@ -142,9 +143,12 @@ def cross_check_fn(scn, ev):
         try:
             want = [interp(t, fenv) for t in orig]
             got = _interp_prog(ev["prefix"], ev["outs"], fenv)
+            stable = [well_conditioned(t, fenv, w) for t, w in zip(orig, want)]
         except (ZeroDivisionError, ValueError, OverflowError):
             continue
-        for w, g in zip(want, got):
+        for w, g, ok_ in zip(want, got, stable):
+            if not ok_:
+                continue          # ill-conditioned original at this point: two correct programs may differ
             n += 1
             if abs(w - g) > 1e-9 * max(1.0, abs(w)):
                 return n, {"expected": w, "observed": g, "env": fenv}
@@ -161,6 +165,10 @@ def run(ctx):
         if s_ is None:
             ctx.violation("spec-invariant", st_["tlc_violation"][:800], st_)
     scns = (scns_b or []) + (scns_r or []) + (scns_f or [])
+    # fixed input of the recorded finding F1 (known_findings.json): exercised on every run
+    c = json.load(open("/verif/corpus/F1_acos_tanh8.json"))["scenario"]
+    c["_id"] = "corpus:F1_acos_tanh8"
+    scns.append(c)
     # (1) values with CSE off and on, both back-ends, against the spec
     r_py = scen.replay_all(ctx, scns, cse_settings=(False, True), force_ekf=True)
     c_py = scen.record_results(ctx, r_py, key_prefix="py:")
@@ -202,7 +210,8 @@ def run(ctx):
         n, bad = cross_check_fn(s, ev)
         nfn += n
         if bad:
-            ctx.violation("%s:%s:value-differs" % (ev["side"], ev["kind"]), json.dumps(bad)[:300],
+            key = findings.KEY if findings.definition_has(s["def"]) else "%s:%s:value-differs" % (ev["side"], ev["kind"])
+            ctx.violation(key, "%s %s " % (ev["side"], ev["kind"]) + json.dumps(bad)[:300],
                           {"scenario": {k: x for k, x in s.items() if not k.startswith("_")}, "program": {k: ev[k] for k in ("side", "kind", "key", "cse", "prefix", "outs")}})
     sample = next((e for e in events if e["prefix"]), events[0] if events else None)
     cov = {"programs": len(events), "disagreements_checked": len(events) + nfn,
